@@ -75,7 +75,15 @@ def gen_descs(rep, wd, module, cfg, label, workers=4, timeout=1200):
     if not r.ok:
         raise ToolError("generator %s did not complete:\n%s" % (cfg, r.out[-2000:]))
     rep.add_tlc(r, "gen:" + label)
-    n = int(r.printed("GENERATED")[0])
+    if r.printed("GENERATED"):
+        n = int(r.printed("GENERATED")[0])
+    else:   # state-per-descriptor generators print one DESC line per distinct state (invariant Emit)
+        rows = [json.loads(json.loads(x)) for x in r.printed("DESC")]
+        rows.sort(key=lambda x: json.dumps(x, sort_keys=True))
+        n = len(rows)
+        if n != r.distinct - 1:
+            raise ToolError("generator %s: %d descriptors printed but %d states" % (cfg, n, r.distinct))
+        common.write_ndjson(out, rows)
     return out, n
 
 
